@@ -18,7 +18,7 @@ func init() {
 	register("c18", "circuit breaker: every sequence over {ok, failure, timeout} x {window elapsed before the call, not elapsed} up to the tier's length, "+
 		"for thresholds 1..5, run against a real ConsecCircuitBreaker with measured clock readings (a sequence whose measured gaps are too close to the window "+
 		"to judge is re-run, never judged); the measured times are given to the Lean model; direct oracle: ErrBreakerOpen <=> function not invoked, and the "+
-		"refusal pattern equals the consecutive-failure rule; plus dial counting through an XClient configured with a breaker; "+
+		"refusal pattern equals the consecutive-failure rule; plus dial counting through an XClient configured with a breaker (all fail modes x retries; Failfast runs replayed attempt by attempt on the Lean dial model); "+
 		"non-trivial = sequence in which the breaker is refused at least once or recovers; distinct = distinct (threshold, step pattern)",
 		runC18)
 }
